@@ -224,6 +224,9 @@ fn case_json(c: &Case, id: &str) -> J {
 }
 
 fn run_one(a: &Args, c: &Case, id: &str, agg: &mut Agg, max_print: u64) -> ExecOut {
+    if let Ok(mut cc) = drive::CURRENT_CASE.lock() {
+        *cc = case_json(c, id).render();
+    }
     let tm0 = std::time::Instant::now();
     let (out, info) = kinds::run_kind(&c.kind, c.len, c.salt, c.hint, &c.cfg);
     if a.flag("timing") { eprintln!("run_kind {:?} recs={}", tm0.elapsed(), out.recs.len()); }
